@@ -63,6 +63,8 @@ def run(tier, seed, t0):
 
     vlib.build_harness()
     mc = [vlib.run_mc("MC_Conn", "MC_Conn_close_q.cfg", workers=8, timeout=1800, xmx="12g"),
+          vlib.run_mc("MC_Conn", "MC_Conn_compliant_q.cfg" if tier == "quick" else "MC_Conn_compliant.cfg", workers=8,
+                      timeout=2400, xmx="12g"),
           vlib.run_mc("MC_Batch", "MC_Batch.cfg", workers=8, timeout=1800, xmx="8g"),
           vlib.run_mc("MC_Batch", "MC_Batch_bug.cfg", workers=4, expect_violation="NoStuckEvent")]
     if tier == "thorough":
